@@ -901,3 +901,55 @@ def vec_literal(ev, cx, args):
 
 
 model("into_vec", "alloc")(vec_literal)
+
+
+# ---------------------------------------------------------------------------- slice::contains
+
+@model("contains", "slice")
+def slice_contains(ev, cx, args):
+    """`xs.contains(&x)` is `xs.iter().any(|e| *e == *x)`."""
+    if len(args) != 2:
+        return None
+    recv, x = args
+
+    def body(e, env, path, L):
+        c = PseudoCallee("eq", path="std::cmp::PartialEq::eq", trait="std::cmp::PartialEq")
+        out = []
+        for r in ev.opaque((cx.fid, (cx.bb, "eq")), c, (e, x), env, path):
+            if r[0] != "val":
+                out.append((r[0], r[1], r[2], None))
+                continue
+            sp = ev.split_bool(r[3], r[2], (cx.fid, (cx.bb, "t")))
+            envs = [r[1]] + [dict(r[1]) for _ in sp[1:]]
+            for i, (b, p) in enumerate(sp):
+                out.append(("break", envs[i], p, ("int", 1)) if b == 1 else ("continue", envs[i], p, None))
+        return out
+
+    return model_loop(ev, cx, "any", recv, body, lambda env, L: ("int", 0))
+
+
+# ---------------------------------------------------------------------------- mem::swap with a local
+
+@model("swap", "mem")
+def mem_swap(ev, cx, args):
+    """`swap(place, &mut local)` where the local's value is known is `local = replace(place, value of local)`."""
+    if len(args) != 2:
+        return None
+    a, b = args
+    if isinstance(a, tuple) and a and a[0] == "cellref" and not (isinstance(b, tuple) and b and b[0] == "cellref"):
+        a, b = b, a
+    if not (isinstance(b, tuple) and b and b[0] == "cellref") or (isinstance(a, tuple) and a and a[0] == "cellref"):
+        return None
+    cell = b[1]
+    val = cx.env.get(cell)
+    if val is None or val[0] in ("undef", "havoc"):
+        return None
+    c = PseudoCallee("replace", path="std::mem::replace")
+    out = []
+    for r in ev.opaque((cx.fid, (cx.bb, "replace")), c, (a, val), cx.env, cx.path):
+        if r[0] == "val":
+            r[1][cell] = r[3]
+            out.append(("val", r[1], r[2], UNIT))
+        else:
+            out.append(r)
+    return out
